@@ -19,6 +19,7 @@ import (
 	"github.com/openbao/openbao/sdk/v2/helper/verif/kvc"
 	"github.com/openbao/openbao/sdk/v2/helper/verif/txc"
 	"github.com/openbao/openbao/sdk/v2/helper/verif/vout"
+	"github.com/openbao/openbao/sdk/v2/helper/verif/vstmt"
 	"github.com/openbao/openbao/sdk/v2/physical"
 )
 
@@ -130,6 +131,26 @@ func (e *c08Env) applyOne() error {
 	return c08Wait("FSM index to advance", func() bool { return e.fsmIndex() > before })
 }
 
+// applyOneDuring grants one apply from inside a step of the harness thread.
+// If the FSM cannot make progress within the grace period (the step holds a
+// lock the apply needs), the grant stays and the apply lands as soon as the
+// step releases the lock; finish() must then be called after the step.
+func (e *c08Env) applyOneDuring(grace time.Duration) (before uint64, landed bool, err error) {
+	before = e.fsmIndex()
+	if err = c08Wait("FSM to reach the gate", func() bool { return e.waiting.Load() > 0 }); err != nil {
+		return before, false, err
+	}
+	e.tokens <- struct{}{}
+	deadline := time.Now().Add(grace)
+	for time.Now().Before(deadline) {
+		if e.fsmIndex() > before {
+			return before, true, nil
+		}
+		time.Sleep(20 * time.Microsecond)
+	}
+	return before, false, nil
+}
+
 type c08Inflight struct {
 	p    int
 	st   txc.Step
@@ -226,6 +247,60 @@ func c08Run(env *c08Env, prefix string, rp txc.Replay) (*txc.Checker, *txc.Viola
 			}
 			continue
 		}
+		if ev >= 1000 {
+			// program p executes its next step (a begin) and the FSM applies the
+			// head of the queue when the step reaches its i-th instrumented
+			// statement (tools/stmtpoints; dynamic, whatever the code is now)
+			p, i := (ev-1000)/100, (ev-1000)%100
+			st := rp.Programs[p].Steps[pc[p]]
+			pc[p]++
+			if len(queue) == 0 || (st.Op != "begin" && st.Op != "beginro") {
+				return c, nil, fmt.Errorf("harness: mid-step apply event needs a begin step and a queued entry")
+			}
+			verBefore := c.Ver()
+			hits, fired, landed := 0, false, false
+			var idxBefore uint64
+			var applyErr error
+			vstmt.Set(func(string) {
+				if hits == i && !fired {
+					fired = true
+					idxBefore, landed, applyErr = env.applyOneDuring(300 * time.Millisecond)
+				}
+				hits++
+			})
+			o := txc.Exec(be, &txs[p], st)
+			vstmt.Set(nil)
+			if !fired {
+				applyErr = env.applyOne() // fewer statements than counted: the event lands right after the step
+			} else if applyErr == nil && !landed {
+				// the step held a lock the apply needed: it lands now
+				applyErr = c08Wait("FSM index to advance after the step", func() bool { return env.fsmIndex() > idxBefore })
+			}
+			if applyErr != nil {
+				return c, nil, applyErr
+			}
+			fl := queue[0]
+			queue = queue[1:]
+			select {
+			case o2 := <-fl.done:
+				if v := finish(fl.p, fl.st, o2); v != nil {
+					_ = drain()
+					return c, v, nil
+				}
+			case <-time.After(20 * time.Second):
+				return c, nil, fmt.Errorf("harness: in-flight %s never returned", fl.st)
+			}
+			if st.Op == "beginro" {
+				ro[p] = true
+			}
+			v := finish(p, st, o)
+			c.SetBeginVer(p, verBefore)
+			if v != nil {
+				_ = drain()
+				return c, v, nil
+			}
+			continue
+		}
 		p := ev
 		st := rp.Programs[p].Steps[pc[p]]
 		pc[p]++
@@ -283,6 +358,12 @@ func c08Run(env *c08Env, prefix string, rp txc.Replay) (*txc.Checker, *txc.Viola
 // ordered > 0: programs 0..ordered-1 are interchangeable single-writer clients;
 // they start in index order (symmetry reduction by role).
 func c08Schedules(progs []txc.Program, lag int, ordered int, visit func([]int)) {
+	c08SchedulesMid(progs, lag, ordered, 0, visit)
+}
+
+// c08SchedulesMid additionally lets the apply of the queue head land at each of
+// the midHits instrumented statements inside a begin step.
+func c08SchedulesMid(progs []txc.Program, lag int, ordered int, midHits int, visit func([]int)) {
 	n := len(progs)
 	pc := make([]int, n)
 	inflight := make([]bool, n)
@@ -342,6 +423,20 @@ func c08Schedules(progs []txc.Program, lag int, ordered int, visit func([]int)) 
 			}
 			sched = sched[:len(sched)-1]
 			pc[p]--
+			if op := progs[p].Steps[pc[p]].Op; midHits > 0 && len(queue) > 0 && (op == "begin" || op == "beginro") {
+				head := queue[0]
+				queue = queue[1:]
+				inflight[head] = false
+				pc[p]++
+				for i := 0; i < midHits; i++ {
+					sched = append(sched, 1000+p*100+i)
+					rec()
+					sched = sched[:len(sched)-1]
+				}
+				pc[p]--
+				inflight[head] = true
+				queue = append([]int{head}, queue...)
+			}
 		}
 		if len(queue) > 0 {
 			head := queue[0]
@@ -423,6 +518,25 @@ func TestVerifC08Raft(t *testing.T) {
 	work := 0
 	deadline := time.Now().Add(time.Duration(vout.DeadlineS()) * time.Second)
 	capped := false
+	// number of instrumented statements one begin executes (dynamic)
+	midHits := 0
+	{
+		vstmt.Set(func(string) { midHits++ })
+		tx, err := b.BeginTx(c13bg)
+		vstmt.Set(nil)
+		if err != nil {
+			t.Fatalf("harness: %v", err)
+		}
+		_ = tx.Rollback(c13bg)
+		if midHits == 0 {
+			t.Fatalf("harness: statement instrumentation of newTransaction is not active (unit needs stmtpoints)")
+		}
+		if midHits > 90 {
+			midHits = 90
+		}
+		res.Bound("statement_points_in_begin", midHits)
+	}
+	mid := 0
 	scenario := func(progs []txc.Program, lag int, ordered int) {
 		work++
 		if !vout.Mine(work) || capped {
@@ -430,8 +544,14 @@ func TestVerifC08Raft(t *testing.T) {
 		}
 		nsched := 0
 		defer func() { res.Max("schedules_per_scenario", int64(nsched)) }()
-		c08Schedules(progs, lag, ordered, func(s []int) {
+		c08SchedulesMid(progs, lag, ordered, mid, func(s []int) {
 			nsched++
+			for _, ev := range s {
+				if ev >= 1000 {
+					res.Add("schedules_with_mid_begin_apply", 1)
+					break
+				}
+			}
 			if capped {
 				return
 			}
@@ -477,6 +597,28 @@ func TestVerifC08Raft(t *testing.T) {
 			scenario(progs, 3, 3)
 		}
 	}
+	// (3) the apply event landing INSIDE BeginTx / BeginReadOnlyTx, at every
+	// statement boundary of newTransaction (index read vs. snapshot order)
+	mid = midHits
+	midTx := c08Pick("r(a)w(b)", "rmw(a)", "l(d/)w(d/x)", "ro:l(d/)r(a)", "d(a)", "lp(,a,1)w(b)")
+	if vout.Thorough() {
+		midTx = nil
+		for _, p := range txc.Templates() {
+			if p.Steps[0].Op == "begin" || p.Steps[0].Op == "beginro" {
+				midTx = append(midTx, p)
+			}
+		}
+	}
+	for _, tx := range midTx {
+		for _, pl := range []string{"pput(a)", "pdel(a)", "pput(d/y)"} {
+			scenario(append(c08Pick(pl), tx), 1, 0)
+		}
+		scenario(append(c08Pick("pput(a)", "pput(d/y)"), tx), 2, 2)
+		if vout.Thorough() {
+			scenario(append(c08Pick("pput(d/y)", "pdel(a)"), tx), 2, 2)
+		}
+	}
+	mid = 0
 	res.Bound("raft_lag_pairs", 2)
 	res.Bound("raft_lag_scenarios", 3)
 }
